@@ -7,7 +7,11 @@ Correspondence: each sampled (K, f_CTL, f_LTL, f_CTL*) is presented to the real 
 (negative, hash-colliding), strings and tuples, (c) atomic propositions renamed consistently in K and f,
 (d) extra states that are unreachable from the old ones (with and without edges from the new states into the old),
 (e) FRESH INTERPRETERS under different PYTHONHASHSEEDs with string / tuple states, multi-character atoms and the
-collections handed over as Python sets.  All variants must give the same answer up to the correspondence (checked on the
+collections handed over as Python sets, (f) states renamed to DISTINCT values that print alike (1 and '1', (1,) and '(1,)'),
+(g) states renamed to plain objects hashed by identity (every answer must be made of the caller's own objects), (h) atoms
+renamed to the bracketed names that the CTL* checker generates for its fresh labels (only atoms that label a state of K;
+the case of a bracketed formula atom that labels no state is the known finding KF-C03-a of C03).  A state is never named
+None: Kripke.labels(state=None) documents None as "no state given".  All variants must give the same answer up to the correspondence (checked on the
 implementation alone), and every variant is also compared with the proved model run on exactly that presentation
 (the iteration orders are read back from the live object; states go through a numbering).  compute_SCCs and
 get_reachable_set_from are compared in the same way as sets of sets."""
@@ -90,10 +94,80 @@ def state_names(rng, n, kind):
         if len(set(map(repr, out))) == len(out) and len(set(out)) == len(out):
             return out
         return [i if i % 2 else 's%d' % i for i in range(n)]
+    if kind == 'strclash':
+        # DISTINCT hashables with the SAME printed form in one structure: 1 next to '1', (1,) next to '(1,)', 's3' next to "'s3'"
+        # (str of the one = repr of the other), chains 1 / '1' / "'1'": a state is its value, never its str() / repr()
+        mk = [lambda i: i, lambda i: -i - 1, lambda i: (i,), lambda i: ('a', i), lambda i: 's%d' % i, lambda i: M61 + i,
+              lambda i: (i, ('b', None)), lambda i: 'q%d' % i, lambda i: ()]
+        out, i = [], 0
+        while len(out) < n:
+            v = rng.choice(mk)(i)
+            i += 1
+            if v in out:
+                continue
+            chain = [v]
+            for _ in range(2 if rng.random() < 0.2 else 1):
+                chain.append(repr(chain[-1]))        # for ints and tuples repr == str; for a str s, repr(s) prints like s quoted
+            out += chain
+        out = out[:n]
+        rng.shuffle(out)
+        assert len(set(out)) == n
+        return out
+    if kind == 'obj':
+        # plain objects hashed / compared by identity (no value, not orderable; with style 'same' all print alike), alone, inside
+        # tuples and next to ordinary states: an answer must consist of the caller's own state objects
+        style = rng.choice(['id', 'same', 'mixed', 'mixed'])
+        out = []
+        for i in range(n):
+            st = style if style != 'mixed' else rng.choice(['id', 'same', 'in-tuple', 'plain'])
+            o = W.ObjName('o%d' % i, 'same' if st == 'same' else 'id')
+            out.append(('w', o) if st == 'in-tuple' else (i if i % 2 else 's%d' % i) if st == 'plain' else o)
+        return out
     raise ValueError(kind)
 
 
-def presentation(kd, rng, names=None, permute=False, omit_S=False, containers='list', sigma=None, extra=None):
+def bracketed_sigma(rng, kd, aps, queries):
+    """atom renaming to BRACKETED names: one atom b that labels a state of K gets the very name the CTL* checker would pick as the
+    fresh label of a quantified subformula g of the query ('[' + str(g) + ']', printed by the library after the renaming of the other
+    atoms; for E g also the name of its dual A(not g)); a further labelling atom may get the checker's second choice
+    '[[...](0)]'.  Only atoms that label some state of K are renamed like this (a bracketed FORMULA atom that labels no state
+    is the known finding KF-C03-a, not looked for here).  -> (sigma, kind) or None"""
+    L = lang_module('CTLS')
+    labelled = [a for a in aps if any(a in labs for labs in kd['L'].values())]
+    if not labelled:
+        return None
+    fs = [f for lg, f in queries if lg == 'CTLS'][0]
+    quants = [g for g in subformulas(fs) if g[0] in ('A', 'E')]
+    pairs = [(b, g) for g in quants for b in labelled if b not in fatoms(g)]
+    sigma = {}
+    fresh = fresh_names(rng, len(aps), avoid=aps)
+    keep = rng.random() < 0.5
+    if pairs:
+        b, g = rng.choice(pairs)
+        kind = 'name-of-a-quantified-subformula'
+    else:
+        b, g = rng.choice(labelled), (rng.choice(quants) if quants else ('A', ('X', ('ap', aps[0]))))
+        kind = 'bracketed-but-unrelated'
+    for a, nm in zip(aps, fresh):
+        if a != b:
+            sigma[a] = a if keep else nm
+    tmp = dict(sigma)
+    tmp[b] = fresh[aps.index(b)]               # only used when g mentions b itself (then the name is no fresh name of the run)
+    g2 = rename_formula(g, tmp)
+    if g2[0] == 'E' and rng.random() < 0.4:
+        g2 = ('A', ('not', g2[1]))
+        kind += '-dual'
+    sigma[b] = '[%s]' % str(to_py(g2, L))
+    others = [c for c in labelled if c != b and c not in fatoms(g)]
+    if others and rng.random() < 0.5:
+        sigma[rng.choice(others)] = '[%s(0)]' % sigma[b]
+        kind += '+second-choice'
+    if len(set(sigma.values())) != len(aps):
+        return None
+    return sigma, kind
+
+
+def presentation(kd, rng, names=None, permute=False, omit_S=False, containers='list', sigma=None, extra=None, sparse_L=False):
     """kd: base structure over states 0..n-1.  names: bijection base state -> new name; permute: shuffle all argument orders;
     sigma: atom renaming; extra: (new_states, new_edges, new_labels) appended (new states numbered n, n+1, ...)"""
     S = list(kd['S'])
@@ -115,6 +189,8 @@ def presentation(kd, rng, names=None, permute=False, omit_S=False, containers='l
         L = [(s, rng.sample(labs, len(labs))) for s, labs in L]
         if rng.random() < 0.3:
             L = [(s, labs) for s, labs in L if labs]      # unlabelled states may be left out of L altogether
+    if sparse_L:
+        L = [(s, labs) for s, labs in L if labs]
     e = W.enc
     return {'S': None if omit_S else [e(names[s]) for s in S], 'S0': [e(names[s]) for s in S0],
             'R': [[e(names[a]), e(names[b])] for a, b in Rl], 'L': [[e(names[s]), labs] for s, labs in L],
@@ -173,7 +249,7 @@ def gen_base(R, count):
     return out
 
 
-def variants_inprocess(kd, aps, queries, rng):
+def variants_inprocess(kd, aps, queries, rng, index=0):
     """-> list of (tag, presentation, queries, restrict) ; index 0 is the base presentation"""
     n = len(kd['S'])
     vs = [('base', presentation(kd, rng), queries, None)]
@@ -207,6 +283,18 @@ def variants_inprocess(kd, aps, queries, rng):
         nm = {s: s for s in list(kd['S']) + ex[0]}
         vs.append(('unreachable-added' + ('-with-edges-into-old' if into_old else ''),
                    presentation(kd, rng, names=nm, extra=ex, permute=rng.random() < 0.5), queries, list(kd['S'])))
+    # appended last (the evidence sample reads variant 5): states whose printed forms coincide, plain-object states, bracketed atoms
+    nm = dict(zip(kd['S'], state_names(rng, n, 'strclash')))
+    vs.append(('rename-strclash', presentation(kd, rng, names=nm, permute=rng.random() < 0.5, sparse_L=rng.random() < 0.75,
+                                               containers='set' if rng.random() < 0.2 else 'list'), queries, None))
+    if index % 2 == 0:                         # every second case (time budget of the quick tier; any copy of a state shows at once)
+        nm = dict(zip(kd['S'], state_names(rng, n, 'obj')))
+        vs.append(('rename-obj', presentation(kd, rng, names=nm, permute=rng.random() < 0.5, sparse_L=rng.random() < 0.3,
+                                              containers='set' if rng.random() < 0.3 else 'list'), queries, None))
+    bs = bracketed_sigma(rng, kd, aps, queries)
+    if bs is not None:
+        vs.append(('rename-atoms-bracketed:' + bs[1], presentation(kd, rng, sigma=bs[0], permute=rng.random() < 0.5),
+                   [(lg, rename_formula(f, bs[0])) for lg, f in queries], None))
     return vs
 
 
@@ -350,7 +438,12 @@ def run(R):
     R.rule = ('(K, f) with K random (2..6 states, atoms {p,q} or {p,q,r}) or a 2-state structure and one formula per logic (CTL state formula depth <= 3, '
               'A g with g of depth 2-3 and <= 4 temporal operators, CTL* state formula depth <= 3 with nested quantifiers), each with a temporal operator. '
               'Variants per case: 4 argument-order permutations (one with S omitted, one with set containers), 3 state renamings (ints incl. negative / '
-              'hash-colliding, strings, tuples), 1 atom renaming, 2 unreachable extensions (one with edges into the old states); a sub-sample additionally in '
+              'hash-colliding, strings, tuples), 1 atom renaming, 2 unreachable extensions (one with edges into the old states); 1 renaming to DISTINCT states '
+              'that print alike (1 / \'1\', (1,) / \'(1,)\', s / repr(s), chains; usually with the unlabelled states left out of L), 1 renaming (every second case) to plain '
+              'objects hashed by identity (alone, inside tuples, next to ordinary states; the answer must consist of the caller\'s own objects - also '
+              'checked for compute_SCCs / reachable sets), 1 atom renaming to the bracketed names the CTL* checker itself generates (\'[\' + str(g) + \']\' '
+              'for a quantified subformula g of the query, its dual, the second choice \'[[...](0)]\'; only for atoms that label a state of K: a '
+              'bracketed formula atom labelling NO state is the known finding KF-C03-a and is not generated); a sub-sample additionally in '
               'fresh interpreters under k PYTHONHASHSEEDs (3 quick / 16 thorough) with str/tuple/int states, multi-character atoms, set containers. '
               'Compared: every variant = base answer under the correspondence (implementation alone), every variant = proved model on that very '
               'presentation, compute_SCCs / reachable sets as sets of sets. non-trivial = answer neither empty nor all states and at least one variant '
@@ -368,7 +461,7 @@ def run(R):
     plan = []          # per case: dict(kd, aps, queries, X, variants=[(tag, pres, qs, restrict)], hvariants=[...])
     for i, (kd, aps, queries) in enumerate(base):
         X = rng.sample(kd['S'], rng.randint(1, max(1, len(kd['S']) // 2)))
-        c = {'kd': kd, 'aps': aps, 'queries': queries, 'X': X, 'variants': variants_inprocess(kd, aps, queries, rng)}
+        c = {'kd': kd, 'aps': aps, 'queries': queries, 'X': X, 'variants': variants_inprocess(kd, aps, queries, rng, i)}
         c['hvariants'] = variants_hashseed(kd, aps, queries, rng) if i < n_hash else []
         plan.append(c)
 
@@ -516,6 +609,33 @@ def run(R):
                               'variants_with_different_observed_order': differs_count[ci],
                               'example_variant': {'tag': c['variants'][5][0], 'S': c['variants'][5][1]['S'], 'states_order_seen': c['obs'][5].get('states_order')}})
     R.cov['nontrivial_by_logic'] = nt_logic
+    # the naming streams: did they produce what they are for?
+    clash = {'presentations': 0, 'with_two_states_printing_alike': 0, 'of_which_one_left_out_of_L_and_the_other_labelled': 0}
+    objs = {'presentations': 0, 'with_identity_hashed_object_states': 0, 'with_objects_inside_tuples': 0, 'all_objects_printing_alike': 0}
+    brk = {}
+    for c in plan:
+        for tag, pres, qs, restrict in c['variants']:
+            if tag == 'rename-strclash':
+                clash['presentations'] += 1
+                nms = [W.dec(x) for x, _ in pres['back']]
+                inL = {json.dumps(x): bool(labs) for x, labs in pres['L']}
+                pairs = [(x, y) for x in nms for y in nms if x is not y and isinstance(y, str) and repr(x) == y]
+                clash['with_two_states_printing_alike'] += bool(pairs)
+                clash['of_which_one_left_out_of_L_and_the_other_labelled'] += any(
+                    {json.dumps(W.enc(x)) in inL, json.dumps(W.enc(y)) in inL} == {True, False} for x, y in pairs)
+            elif tag == 'rename-obj':
+                objs['presentations'] += 1
+                txt = json.dumps([x for x, _ in pres['back']])
+                objs['with_identity_hashed_object_states'] += '"o"' in txt
+                objs['with_objects_inside_tuples'] += '{"t": ["w", {"o"' in txt
+                objs['all_objects_printing_alike'] += '"same"' in txt and '"id"' not in txt
+            elif tag.startswith('rename-atoms-bracketed'):
+                for nm in sorted({a for lg, f in qs for a in fatoms(detuple(f)) if a.startswith('[')}):
+                    k = re.sub(r'[A-Za-z][A-Za-z0-9_]*', lambda m: m.group(0) if m.group(0) in ('not', 'or', 'and', 'A', 'E', 'X', 'F', 'G', 'U', 'R') else 'x', nm)
+                    brk[k] = brk.get(k, 0) + 1
+    R.cov['states_with_equal_printed_forms'] = clash
+    R.cov['plain_object_states'] = objs
+    R.cov['bracketed_atom_name_shapes_in_queries'] = dict(sorted(brk.items(), key=lambda kv: -kv[1])[:25])
     tms = os.times()
     R.cov['cpu_s'] = round(tms.user + tms.system + tms.children_user + tms.children_system, 1)
     R.cov['cases'] = {'base_cases': len(plan), 'cases_also_run_under_hash_seeds': sum(1 for c in plan if c['hvariants'])}
@@ -572,7 +692,8 @@ def replay(R, data):
         R.violation('replayed: Kripke(...) fails on this presentation', d)
         return
     outs = model_batch(model_cmds_for(o, qs, X))
-    failed = False
+    failed = failed_base = False
+    restrict = list(kd['S']) if d['variant'].startswith('unreachable-added') else None
     for qi, (lg, f) in enumerate(qs):
         mo = model_obs(outs[qi])
         a = (o['answers'][qi][0], o['answers'][qi][1])
@@ -582,9 +703,15 @@ def replay(R, data):
         print('    model (this pres.):', mo)
         if a != mo:
             failed = True
+        if restrict_ans(a, restrict) != (b['answers'][qi][0], b['answers'][qi][1]):
+            failed_base = True
     print('scc      :', o['scc'], ' model:', sorted(sorted(ints(cc)) for cc in outs[-2]), ' base:', b['scc'])
     print('reach    :', o['reach'], ' model:', outs[-1], ' base:', b['reach'])
     if (o['scc'][0], o['scc'][1]) != ('ok', sorted(sorted(ints(cc)) for cc in outs[-2])):
         failed = True
+    if restrict_scc((o['scc'][0], o['scc'][1]), restrict) != (b['scc'][0], b['scc'][1]) or restrict_ans(o['reach'], restrict) != (b['reach'][0], b['reach'][1]):
+        failed_base = True
     if failed:
         R.violation('replayed: implementation differs from the proved model on this presentation', d)
+    elif failed_base:
+        R.violation('replayed: the answer on this presentation differs from the answer on the base presentation', d)
